@@ -190,7 +190,24 @@ def conformance(ctx, module, cfg, cases, label, chunk=20000, timeout=1500, worke
             irej += ir
     ctx.add('impl_traces', len(cases))
     ctx.add('tlc_checked_cases', len(cases))
-    return sorted(set(prej)), sorted(set(irej))
+    prej, irej = sorted(set(prej)), sorted(set(irej))
+    # TLC reports only the first violated invariant of a state: a case rejected by the P-layer says nothing about the
+    # I-layer.  Evaluate those cases once more with ImplOk as the only invariant (drift bookkeeping only).
+    cfg_txt = open(cfg).read()
+    if prej and re.search(r'\bImplOk\b', cfg_txt) and re.search(r'\bCaseOk\b', cfg_txt) and not label.endswith('-ionly'):
+        icfg = os.path.join(vlib.mkdirs(os.path.join(ctx.work, 'traces')), os.path.basename(cfg)[:-4] + '_ionly.cfg')
+        with open(icfg, 'w') as f:
+            f.write(re.sub(r'\bCaseOk\b', '', cfg_txt))
+        prej_eval = prej[:300]        # bounded: this is bookkeeping, not a verdict
+        sub = [cases[i] for i in prej_eval]
+        try:
+            _, ir2 = conformance(ctx, module, icfg, sub, label + '-ionly', chunk=chunk, timeout=timeout, workers=workers)
+            ctx.cov['impl_traces'] -= len(sub)
+            ctx.cov['tlc_checked_cases'] -= len(sub)
+            irej = sorted(set(irej) | {prej_eval[j] for j in ir2})
+        except MachineryError:
+            pass
+    return prej, irej
 
 
 def run_cases(exe, inputs, timeout=900, env=None, args=()):
